@@ -523,6 +523,8 @@ PROPS["C02"] = {
 }
 
 def nt_c19(lhs, impl):
+    if lhs.startswith("pgpsig"):
+        return nt_c12(lhs, impl)
     f = lhs.split(" ")
     status = f[3] if len(f) > 3 else "?"
     if "G" in f:
@@ -613,6 +615,9 @@ def nt_c12(lhs, impl):
     if lhs.startswith("pgpsig3 "):
         d = _hexbytes(lhs.split(" ")[1])
         return ("pgpsig3", impl.split(" ")[0], bytes(d[:2]).hex(), bytes(d[15:17]).hex(), min(len(d), 40))
+    if lhs.startswith("pgpsigx "):
+        t = lhs.split(" ")
+        return ("pgpsigx", impl.split(" ")[0], len(t[1]) // 512, t[3], t[4] != "-", t[5][-2:])
     if lhs.startswith("pgpsig "):
         d = _hexbytes(lhs.split(" ")[1])
         t = impl.split(" ")
